@@ -106,7 +106,22 @@ impl Story {
         let mut output_stream_ends_in_newline = false;
         self.saw_lookahead_unsafe_function_after_new_line = false;
 
+        #[cfg(feature = "verif-hooks")]
+        let mut verif_steps: u64 = 0;
+
         loop {
+            #[cfg(feature = "verif-hooks")]
+            {
+                verif_steps += 1;
+                if let Some(f) = self.verif_fuel.as_mut() {
+                    if *f == 0 {
+                        self.add_error("VERIF_FUEL", false);
+                        break;
+                    }
+                    *f -= 1;
+                }
+            }
+
             match self.continue_single_step() {
                 Ok(r) => output_stream_ends_in_newline = r,
                 Err(e) => {
@@ -117,6 +132,18 @@ impl Story {
 
             if output_stream_ends_in_newline {
                 break;
+            }
+
+            // Virtual clock: count steps instead of reading the wall clock.
+            #[cfg(feature = "verif-hooks")]
+            if self.verif_step_clock {
+                if self.async_continue_active && (verif_steps as f32) >= millisecs_limit_async {
+                    break;
+                }
+                if !self.can_continue() {
+                    break;
+                }
+                continue;
             }
 
             // Run out of async time?
